@@ -279,7 +279,11 @@ class DelAttrMethod(MethodDescriptor):
             return mutate_attr(
                 obj=self,
                 attr=attr,
-                value=default,  # already mutate-safe
+                # `default` is already mutate-safe; prepare it exactly as the
+                # constructor / assignment would (preparers, collection casting).
+                value=prepare_attr_value(
+                    attr_spec=attr_spec, instance=self, value=default
+                ),
                 inplace=True,
                 force=True,
                 skip_invalidation=skip_invalidation,
